@@ -21,7 +21,8 @@ are `Real.sqrt` (ellipse radii: the radicands are non-negative by the oracle con
 Oracle parameters and their contracts:
 * `rotOf` (`Eigen::Affine3d::rotation()`): the theorems assume `rotOf L = L` for the linear parts used
   (true of the polar factor whenever `L` is a rotation matrix);
-* `svd` (`JacobiSVD` of the 2×2 covariance): `IsEig2` below.
+* `svd` (`JacobiSVD` of the 2×2 covariance): `IsEig2` below; it is satisfiable for every symmetric PSD 2×2
+  matrix (`isEig2_exists`), so `ellipse` is not vacuous anywhere on the property's domain.
 
 Positive semi-definiteness is stated elementarily (`IsPSD`): symmetric and `xᵀ C x ≥ 0` for every `x`.
 
